@@ -478,6 +478,7 @@ pub fn run(ctx: &Ctx) -> Outcome {
     });
     let cells = report.set_len("matrix_addressed_kind_x_bystander_state");
     let floors = vec![
+        floor("the implementation's equality separates sign states whose futures differ (the explorer's visited set relies on it)", vsx::equality_merges_states_with_different_futures() == 0, vsx::equality_merges_states_with_different_futures()),
         floor("2-sign bus explored to a fixed point", report.get("bfs_fixed_points") == nb as u64, report.get("bfs_fixed_points")),
         floor("(addressed message kind x bystander state) cells observed (of 130)", cells >= 125, cells),
         floor("data delivered while >= 2 signs were receiving", report.get("data_while_two_signs_receiving") > 0, report.get("data_while_two_signs_receiving")),
